@@ -186,6 +186,10 @@ func genWorld(rt *rapid.T, maxEntries int, maxTerm uint64) *c06Script {
 	if s.Commit >= 2 && rapid.IntRange(0, 2).Draw(rt, "compact") == 0 {
 		s.Boundary = uint64(rapid.IntRange(2, int(s.Commit)).Draw(rt, "boundary"))
 	}
+	if k == 0 && commonLast >= 2 && rapid.IntRange(0, 4).Draw(rt, "wholeLog") == 0 {
+		// the snapshot covers the follower's whole log: what it knows about its last entry is what compaction left behind
+		s.Commit, s.Boundary = commonLast, commonLast
+	}
 	lt := uint64(1)
 	if n := len(s.Follower); n > 0 {
 		lt = s.Follower[n-1].T
